@@ -135,7 +135,10 @@ def parse_site(out_dir):
         for hl in soup2.select("div.hl, div.codehilite, table.codehilitetable, pre.hl"):
             hl.decompose()
         for sc in soup2(["script", "style"]):
-            sc.decompose()
+            if sc.name == "script" and str(sc.get("type", "")).startswith("math/tex"):
+                sc.replace_with(" " + sc.get_text() + " ")  # TeX source shown by MathJax: visible text
+            else:
+                sc.decompose()
         pages[rel] = {"ids": ids, "links": links, "text": soup2.get_text(" "), "title": (soup.title.get_text() if soup.title else ""), "raw_len": len(raw)}
     search = []
     sp = os.path.join(out_dir, "search", "search_database.json")
